@@ -130,9 +130,10 @@ def handleWorld (j : Json) : Json :=
   let impl := jget j "impl"
   -- keys the store writes: the (app, entry) of the deploy and status keys are parsed back from the name
   let stored : List (W × List (String × String) × Str × Str) := ws.filterMap fun (w, col) =>
-    match parseName (makeName w.app w.entry w.sfx) with
-    | some (a, e, _) => some (w, col, workloadKey deployRoot a e w.node w.id, workloadKey statusRoot a e w.node w.id)
-    | none => none
+    let wl : WL := { app := w.app, entry := w.entry, node := w.node, id := w.id, ident := w.sfx, labels := col }
+    match storedKey deployRoot wl, storedKey statusRoot wl with
+    | some d, some s => some (w, col, d, s)
+    | _, _ => none
   let pkeys : List (P × Str) := ps.map fun p => (p, workloadKey processingRoot p.app p.entry p.node p.ident)
   let sel (pre : Str) (k : Str) : Bool := if redis then globMatch (pre ++ ['*']) k else hasPrefix pre k
   let qs := jarr (jget j "queries")
